@@ -964,10 +964,10 @@ def run_cron(ctx: Ctx, scratch: str):
                 if fired != (1 if want else 0):
                     rp = {"kind": "cron_store", "backend": kind, "expr": expr, "conf": conf,
                           "polls": [t.isoformat() for t in polls], "last": last0.isoformat() if last0 else None}
-                    if fired == 1 and last is None and p is None:
+                    if fired == 1 and last is None and not cond.is_satisfied_by(CronContext(timestamp=ts, last_execution=None)):
                         ctx.violation(f"cron-first-poll-unconditional:{kind}",
                                       f"{kind}: cron `{expr}`: with no last execution stored the first poll ({ts.isoformat()}) becomes an "
-                                      "occurrence although no scheduled minute is within the window", rp)
+                                      "occurrence although CronCondition.is_satisfied_by refuses it (no scheduled minute within the window)", rp)
                     elif not (fired == 1 and p is not None and p == ts.replace(second=0, microsecond=0)):
                         ctx.violation(f"cron-store:{kind}:{'extra' if fired else 'missing'}",
                                       f"{kind}: cron `{expr}` {conf}: poll {ts.isoformat()} (last {last}) launched {fired}, statement says {want}", rp)
